@@ -133,7 +133,7 @@ func (e *Env) invoke(st *State, recv Val, m *types.Func, args []Val, rt types.Ty
 	if ct := e.Cx.ifaceContract(recv.Typ, m.Name()); ct != nil {
 		return e.applyContract(st, ct, append([]Val{recv}, args...), rt, c)
 	}
-	if ct := e.Cx.extern[name]; ct != nil {
+	if ct := e.Cx.externFor(name, e.topFn); ct != nil {
 		return e.applyContract(st, ct, append([]Val{recv}, args...), rt, c)
 	}
 	// intrinsic on interface method
@@ -213,7 +213,7 @@ func (e *Env) dispatch(st *State, fn *ssa.Function, args []Val, binds []Val, rt 
 	if ct := e.Cx.forFunc(fn); ct != nil && !(e.noContract[fn]) {
 		return e.applyContract(st, ct, args, rt, c)
 	}
-	if ct := e.Cx.extern[name]; ct != nil {
+	if ct := e.Cx.externFor(name, e.topFn); ct != nil {
 		return e.applyContract(st, ct, args, rt, c)
 	}
 	if f, ok := intrinsicsByName[name]; ok {
@@ -476,6 +476,18 @@ func pureExternal(name string) bool {
 
 // pureCall: deterministic external function: an uninterpreted function of its arguments.
 func (e *Env) pureCall(st *State, name string, args []Val, rt types.Type) []Out {
+	// go-ethereum: HexToAddress(a.String()) == a and HexToAddress(a.Hex()) == a for every address a
+	if name == "github.com/ethereum/go-ethereum/common.HexToAddress" && len(args) == 1 && args[0].K == kTerm {
+		for _, pfx := range []string{"(pf__github.com_ethereum_go_ethereum_common.Address_.String_0 ", "(pf__github.com_ethereum_go_ethereum_common.Address_.Hex_0 "} {
+			if strings.HasPrefix(args[0].T, pfx) && strings.HasSuffix(args[0].T, ")") {
+				inner := args[0].T[len(pfx) : len(args[0].T)-1]
+				if balancedOne(inner) {
+					e.trusted["go-ethereum: common.HexToAddress(a.String()) == a (hex round trip of an address)"]++
+					return []Out{{st: st, res: e.wrapTerm(rt, inner)}}
+				}
+			}
+		}
+	}
 	e.trusted["pure(deterministic, no side effects): "+name]++
 	var ats, sorts []string
 	for _, a := range args {
